@@ -648,6 +648,13 @@ class Report:
                     fi = self.slice_const_len(body, i_)
                     if v is not None and fi == v:
                         return 'discharged', 'D-precond', 'input and output both %d bytes' % v
+            # output is a fixed-size array `[0u8; K]` borrowed as a slice, input a K-byte slice
+            vis = set()
+            origins(body, o_, visited=vis)
+            ks = {int(m.group(1)) for l in vis for m in [re.match(r'^\[u8; (\d+)\]$', body.locals[l]['ty'])] if m}
+            fi = self.slice_const_len(body, i_)
+            if len(ks) == 1 and fi is not None and fi in ks:
+                return 'discharged', 'D-precond', 'input and output both %d bytes' % fi
             return 'open', None, 'Rc4::process input/output lengths not shown equal'
         return 'open', None, ''
 
